@@ -734,6 +734,9 @@ def oracle(case, o):
                 return bad
             if not mat_close(M, ref):
                 bad.append((f"C15:matrix:{cls}", f"as_matrix() differs from c + sum t a+a + 1/2 sum v a+a+aa by {dmax(M - ref):.3g}"))
+            comm = N @ M - M @ N
+            if dmax(comm) > 1e-9 * (1 + dmax(M) * n):
+                bad.append((f"C15:number-conservation:molecular", f"|[N, H]| = {dmax(comm):.3g}"))
             if o["herm"]:
                 # tolerance of the validated symmetry: exact for exactly symmetric tensors, allclose-sized for perturbed ones
                 tol = 1e-9 if case.get("perturb", 0) == 0 else 1e-6
